@@ -388,8 +388,13 @@ class C06(Prop):
     def nontrivial(self, op, line):
         return None
 
-    def relation_nontrivial(self):
-        return 0
+    def nontrivial_all(self, ops, impl):
+        out = []
+        for i in range(0, len(ops) - 2, 3):
+            c1, c2 = cls(res1(impl[i + 1])), cls(res1(impl[i + 2]))
+            if c1 != c2:
+                out.append(ops[i][:80])
+        return out
 
 
 class C08(Prop):
